@@ -15,11 +15,11 @@ import aave_lib as AL
 from aaverisk_lib import Case, Exact, close, TOL
 
 PROPERTY = "C12"
-LEAN_MODULES = ["Proofs.C12", "Proofs.C12.Loop", "Proofs.C12.Pick"]
+LEAN_MODULES = ["Proofs.C12", "Proofs.C12.Loop", "Proofs.C12.Pick", "Proofs.C12.Refine", "Proofs.C12.RefineStep", "Proofs.C12.RefineLoop"]
 DRIVERS = ["driver_aaverisk"]
 RULE = ("portfolios over the uppercase symbols of the four risk-parameter CSVs: 1-3 collateral supplies (+ optional non-collateral supply), "
-        "1-3 debts, liquidity/borrow indices 1..3 different per token, prices log-uniform over 8 decades, debts scaled so that the health factor "
-        "lands in (0,0.6], (0.6,0.95), {0.95}, (0.95,1), {1}, (1,1.5), no debt, no collateral; boundary stream with exact ties (HF = 0.95 / 1 exactly, "
+        "1-3 debts, liquidity/borrow indices 1..3 different per token, prices log-uniform over 11 decades (1e-6 .. 1e5), debts scaled so that the health factor "
+        "lands in (0,0.6], (0.6,0.95), {0.95}, (0.95,1), {1}, (1,1.5), no debt, no collateral; price paths over later bars, and accrual-only paths (no price changes, indices grow until a hair-healthy account crosses HF 1); boundary stream with exact ties (HF = 0.95 / 1 exactly, "
         "equal debt values, equal collateral values), malformed stream (zero-amount debt entry, LT = 0 collateral, debt worth > 1e22, LT(1+bonus) > 1); "
         "bucket = (stream, HF class, #collateral, #debts, per-step tags half/full x capped/uncapped, end reason, exception)")
 TRUSTED = ["theorems are for the exact rational semantics; the 35-digit Decimal rounding is reproduced bit-exactly by the driver and measured against the "
@@ -30,7 +30,7 @@ ASSUMPTIONS = ["risk tables satisfy RiskParamsSane (collateral-enabled => LT > 0
                "prices, indices > 0 and scaled balances >= 0 (WF); the market is open (write_func) on the bar"]
 
 MINTV = F(1e-18 - 1e-27)       # helper.MIN_TOKEN_VALUE (exact binary value), dust snapped by sub_base_amount
-HF_CLASSES = ["deep", "mid", "at95", "half", "at1", "safe", "tiny"]
+HF_CLASSES = ["deep", "mid", "at95", "half", "at1", "safe", "tiny", "accrue", "accrue"]
 
 
 # ------------------------------------------------------------------------------------------------------------ generator
@@ -48,7 +48,7 @@ def _idx(rng, exact):
 def _price(rng, exact):
     if exact:
         return rng.choice(["1", "0.5", "2", "1000", "0.25", "1600", "0.001", "40000"])
-    return str(L.rnd_dec(rng, -4, 4, rng.choice([1, 3, 8])))
+    return str(L.rnd_dec(rng, -6, 5, rng.choice([1, 3, 8])))
 
 
 def gen_case(rng, stream):
@@ -83,12 +83,15 @@ def gen_case(rng, stream):
         supplies.insert(rng.randint(0, len(supplies)), [n, str(L.rnd_dec(rng, -2, 6, 5)), False])
     cls = rng.choice(HF_CLASSES)
     if stream == "boundary":
-        cls = rng.choice(["at95", "at1", "half", "mid", "deep", "tiny"])
+        cls = rng.choice(["at95", "at95", "at95", "at1", "at1", "half", "mid", "deep", "tiny"])
     case = Case(path, toks, supplies, [], {n: "7" for n in list(toks)[:2]}, rp_over)
     # weighted liquidation threshold, exactly
     wlt = sum((F(D(b)) * F(D(toks[n]["li"])) * F(D(toks[n]["p"])) * F(rp.loc[n].reserveLiquidationThreshold) for n, b, c in supplies if c), F(0))
     target = {"deep": F(rng.randint(5, 60), 100), "mid": F(rng.randint(61, 94), 100), "at95": F(95, 100),
               "half": F(rng.randint(951, 999), 1000), "at1": F(1), "safe": F(rng.randint(101, 150), 100),
+              # healthy by a hair: the following bars change NO price, only the indices grow (interest accrues on the debt faster than on
+              # the collateral) until the health factor crosses 1 - liquidation is due at the end of that bar like at any other
+              "accrue": F(rng.randint(10001, 10300), 10000),
               # dust collateral against real debts: 0 < HF <= 1e-6 (liquidated like any HF below 1; 1e-6 itself is a boundary value)
               "tiny": F(rng.choice([1, 1, 3, 9]), 10 ** rng.choice([6, 6, 7, 9, 12, 20]))}[cls]
     if cls in ("at95", "at1") and not exact and rng.random() < 0.5:
@@ -110,8 +113,29 @@ def gen_case(rng, stream):
     # ---- special shapes
     if stream == "special":
         k = rng.choice(["nodebt", "nocoll", "zero-debt-entry", "lt0", "oversized", "heavy-bonus", "cheap-debt", "price0", "dust-debt", "dust-coll",
-                        "capped-tie", "capped-tie"])
+                        "capped-tie", "capped-tie", "dust-left", "dust-left"])
         tag = k
+        if k == "dust-left" and len(collable) >= 2:
+            # the first step seizes the whole of the big collateral; a dust collateral (1e-8 .. 1e-14 of it) is left against the rest of
+            # the debts: the health factor lands in (0, 1e-6] in the MIDDLE of the loop, which has to go on (HF < 1, collateral left,
+            # debts not yet visited)
+            ca, cb = rng.sample(collable, 2)
+            dn = rng.sample([n for n in names], rng.choice([2, 2, 3]))
+            tk = {n: {"li": _idx(rng, False), "bi": _idx(rng, False), "p": _price(rng, False)} for n in dict.fromkeys([ca, cb] + dn)}
+            va = L.rnd_dec(rng, 3, 7, 6)
+            vb = va * D(rng.choice([1, 3, 7])) / D(10) ** rng.choice([8, 9, 10, 12, 14])
+            sup = []
+            for n, v in ((ca, va), (cb, vb)):
+                sup.append([n, str(D(format(v / D(tk[n]["p"]) / D(tk[n]["li"]), ".25e"))), True])
+            if rng.random() < 0.5:
+                sup.reverse()
+            wl = sum((F(D(b_)) * F(D(tk[n]["li"])) * F(D(tk[n]["p"])) * F(rp.loc[n].reserveLiquidationThreshold) for n, b_, _ in sup), F(0))
+            tot = wl / F(rng.randint(10, 40), 100)
+            dl2 = []
+            for n in dn:
+                bd = tot / len(dn) * F(rng.randint(95, 105), 100) / F(D(tk[n]["p"])) / F(D(tk[n]["bi"]))
+                dl2.append([n, str(D(format(D(bd.numerator) / D(bd.denominator), ".28e")))])
+            return Case(path, tk, sup, dl2, {ca: "7"}, {}), tag
         if k == "capped-tie":
             # one collateral worth its debt x (1 + bonus) to the last digit: capped-or-not and the scaled-down repayment are decided
             # by the 35-digit rounding (the inputs of `variable_delt < actual_debt_to_liquidate`)
@@ -230,6 +254,19 @@ def gen_path(rng, case: Case):
             f = D(rng.randint(55, 104)) / 100 if n in colls else D(rng.randint(97, 135)) / 100
             nxt[n] = {"li": str(D(t["li"]) * (1 + D(rng.randint(0, 5000)) / 10 ** 6)), "bi": str(D(t["bi"]) * (1 + D(rng.randint(0, 9000)) / 10 ** 6)),
                       "p": str((D(t["p"]) * f).normalize())}
+        path.append(nxt)
+        cur = nxt
+    return path
+
+
+def gen_accrual_path(rng, case: Case):
+    """later bars in which every price stays what it was: only the indices move (debt faster than collateral)"""
+    path, cur = [], case.toks
+    for _ in range(rng.randint(1, 3)):
+        nxt = {}
+        for n, t in cur.items():
+            nxt[n] = {"li": str(D(t["li"]) * (1 + D(rng.randint(0, 3000)) / 10 ** 6)), "bi": str(D(t["bi"]) * (1 + D(rng.randint(0, 40000)) / 10 ** 6)),
+                      "p": t["p"]}
         path.append(nxt)
         cur = nxt
     return path
@@ -425,6 +462,8 @@ def run(ctx: Ctx):
         stream = "random" if r < 0.6 else ("boundary" if r < 0.8 else "special")
         case, tag = gen_case(ctx.rng, stream)
         path = gen_path(ctx.rng, case) if stream == "random" and ctx.rng.random() < 0.3 else ()
+        if tag == "accrue":
+            path = gen_accrual_path(ctx.rng, case)
         check_case(ctx, case, stream, tag, reqs, path)
     ctx.impl_traces = len(reqs)
     if ctx.driver_ok:
